@@ -321,7 +321,17 @@ def check_mapping(spec, ctx):
     ctx.nt()
     parent = chrom_parent(g)
     try:
-        coll = mkcollection(o, parent)
+        if spec.get("variants_built_without_parent"):
+            # construction order of a pipeline that reads the variants before the reference: the haplotypes are built without any
+            # parent, and the sequence only arrives through the AnnotationCollection constructor (which re-parents its children)
+            from harness.build import mkgene as _mg, mkfc as _mf, AnnotationCollection as _AC
+            coll = _AC(feature_collections=[_mf(c_, parent) for c_ in o.get("feature_collections", [])] or None,
+                       genes=[_mg(g_, parent) for g_ in o.get("genes", [])] or None,
+                       variant_collections=[mkvc(v_, None) for v_ in o.get("variant_collections", [])] or None,
+                       sequence_name="chr1", parent_or_seq_chunk_parent=parent)
+            ctx.label("variants_built_without_parent")
+        else:
+            coll = mkcollection(o, parent)
     except INTERNAL as e:
         ctx.fail("collection_with_variants_internal_error", repr(e)[:120])
         return
@@ -343,6 +353,25 @@ def check_mapping(spec, ctx):
             ctx.eq("mapping_member_count", len(got[k]), len(exp[k]))
             ctx.eq("mapping_member_identifiers", sorted(sorted(map(str, x.identifiers)) for x in got[k]), sorted(sorted(map(str, x.identifiers)) for x in exp[k]))
             ctx.label("mapping_nonempty")
+            # the mapped members carry the haplotype's bases (SNVs only here: coordinates do not move)
+            vspec = next((v_ for v_, vcx in zip(o.get("variant_collections", []), sorted(vcs, key=lambda x: x.start)) if str(vcx.guid) == k), None)
+            vcx = next((x for x in vcs if str(x.guid) == k), None)
+            if vcx is not None:
+                galt = list(g)
+                for vi in vcx.variant_intervals:
+                    galt[vi.start:vi.end] = list(str(vi.sequence))
+                galt = "".join(galt)
+                try:
+                    ctx.eq("haplotype_alternative_sequence", str(vcx.alternative_genomic_sequence), galt)
+                except BioCantorException as e:
+                    ctx.fail("haplotype_alternative_sequence_raises", repr(e)[:100])
+                for x in got[k]:
+                    for kid in x.iter_children():
+                        try:
+                            pos_ = rm.loc_positions(kid.chromosome_location)
+                            ctx.eq("mapped_member_spliced_sequence", str(kid.get_spliced_sequence()), rm.seq_image(galt, pos_, kid.strand.to_symbol()))
+                        except BioCantorException as e:
+                            ctx.fail("mapped_member_sequence_raises", repr(e)[:100])
     if not vcs:
         ctx.true("no_variants_no_mapping", m is None)
 
@@ -490,6 +519,13 @@ def strat_incorporate(draw, tier="quick"):
 
 @st.composite
 def strat_mapping(draw, tier="quick"):
+    sp_ = draw(_strat_mapping(tier))
+    sp_["variants_built_without_parent"] = draw(st.integers(0, 2)) == 0
+    return sp_
+
+
+@st.composite
+def _strat_mapping(draw, tier="quick"):
     o = draw(S.collection_spec(max_genes=2, max_fcs=1, with_variants=False, region_step=30))
     hi = o.pop("hi")
     n = hi + draw(st.integers(4, 10))
